@@ -749,3 +749,19 @@ func returnsFresh(call *ssa.Call, idx, depth int) bool {
 	}
 	return found
 }
+
+// InModuleType: t (through pointers) is a named type declared in the analysed module.
+func InModuleType(t types.Type) bool {
+	for {
+		if p, ok := t.(*types.Pointer); ok {
+			t = p.Elem()
+			continue
+		}
+		break
+	}
+	nt, ok := t.(*types.Named)
+	if !ok || nt.Obj().Pkg() == nil {
+		return false
+	}
+	return strings.HasPrefix(nt.Obj().Pkg().Path(), "github.com/semafind/semadb")
+}
